@@ -681,3 +681,37 @@ async fn output_committed_to_an_nft_transaction_is_not_handed_out_again() {
         .any(|slip| slip.get_utxoset_key() == small.utxokey);
     if !(!reused) { witness(format!("after create_bound_transaction committed the 100 nolan output of block {} tx {} to a pending NFT transaction the wallet still reported balance 1100 with that output listed as unspent, and the next Transaction::create (payment of 60 nolan) used the same output as its input : two transactions built by the wallet spend one output, only one of them can ever be accepted by the ledger", small.block_id, small.tx_ordinal)); }
 }
+
+/// C10: a wallet file whose bytes are no key pair is rejected by the decoder instead of crashing the node at its first signature
+#[test]
+fn wallet_file_that_is_no_key_pair_is_refused() {
+    #[allow(unused_imports)] use crate::core::util::crypto::generate_keys;
+    #[allow(unused_imports)] use crate::core::consensus::wallet::Wallet;
+    use crate::core::util::crypto::{is_valid_public_key, sign, verify};
+
+    // control: a real wallet written and read back works, and signs
+    let keys = generate_keys();
+    let wallet = Wallet::new(keys.1, keys.0);
+    let honest_bytes = wallet.serialize_for_disk();
+    assert_eq!(honest_bytes.len(), 65);
+    let keys2 = generate_keys();
+    let mut wallet2 = Wallet::new(keys2.1, keys2.0);
+    assert!(wallet2.deserialize_from_disk(&honest_bytes).is_ok());
+    assert_eq!(wallet2.private_key, wallet.private_key);
+    let signature = sign(b"hello", &wallet2.private_key);
+    assert!(verify(b"hello", &signature, &wallet2.public_key));
+
+    // control: a file that is too short is refused and the keys are left alone
+    let mut wallet3 = Wallet::new(keys2.1, keys2.0);
+    assert!(wallet3.deserialize_from_disk(&[0u8; 64]).is_err());
+    assert_eq!(wallet3.private_key, keys2.1);
+
+    // the malformed file: 65 zero bytes
+    let result = wallet3.deserialize_from_disk(&[0u8; 65]);
+    let accepted = result.is_ok();
+    let loaded_private_key = wallet3.private_key;
+    let loaded_public_key = wallet3.public_key;
+    let sign_result = std::panic::catch_unwind(|| sign(b"hello", &loaded_private_key));
+
+    if !(!(accepted && sign_result.is_err())) { witness(format!("Wallet::deserialize_from_disk returned Ok for a wallet file of 65 zero bytes (private key 0, public key valid on the curve: {}), the wallet's keys were replaced by them, and the first sign() with the loaded key panicked: malformed bytes from disk are not rejected and crash the node later", is_valid_public_key(&loaded_public_key))); }
+}
